@@ -172,6 +172,8 @@ def main():
         c.violation("Hamiltonian matrix of sites %s built by %s differs from the documented operator (16*H entries: %s)" % (
             s["sites"], json.dumps(s["build"]), json.dumps(bad["entries"])[:200]), s, cls=cls)
         pos += v.matched + 1
+    import cplxtier
+    cplxtier.run(c, {"q": "hfock", "scale": 16}, "HamTrace", "C04", "Hamiltonian matrix", 10 if not thorough else 100, partitions=({"mode": "ignore"},))
     c.rule = ("every preset on every two-site layout with <= 6 modes (%s), term factories, user terms: all operator orders of length 2, %s of length 4, random of "
               "length 6 on A(1,2)+B(1,1); non-trivial = distinct builds with a non-zero matrix" % ("all calls" if thorough else "6 calls per layout", "all" if thorough else "260"))
     c.trusted = ["TLC", "harness hfock projection (block matrices placed on the Fock space)"]
